@@ -307,6 +307,6 @@ OBLIGATIONS = [
         shards=_shards,
         twin=[{"N": 4, "D": 3, "ops": "core", "twin_label": "inner-raise"}],
         timeout={"quick": 100, "thorough": 1200},
-        bounds={"quick": "<= 3 ops (core) with a KeyboardInterrupt arriving inside one solver-chosen message delivery; <= 4 ops with the core op set (no pre-created / finished actions) and <= 3 ops with all ops, depth <= 3; ops: with / context() / run() on a new action, with/context() on an action created earlier under another current action, context()/run() of an action that has already finished, context()/run() re-entering any enclosing action, generator body closed early, start_task, log_message, exit, raise caught j levels out", "thorough": "<= 5 ops (core) / <= 4 ops (all), depth <= 4"},
+        bounds={"quick": "<= 3 ops (core) with a KeyboardInterrupt arriving inside one solver-chosen message delivery; <= 4 ops with the core op set (no pre-created / finished actions) and <= 3 ops with all ops, depth <= 3; ops: with / context() / run() on a new action, with/context() on an action created earlier under another current action, context()/run() of an action that has already finished, context()/run() re-entering any enclosing action, generator body closed early, start_task, log_message, exit, raise caught j levels out", "thorough": "<= 5 ops (core) / <= 4 ops (all), depth <= 4; <= 4 ops (core) with the interrupting destination"},
     ),
 ]
